@@ -129,6 +129,7 @@ pub fn determinism(verif_dir: &str, runs: u64, only: Option<String>) -> i32 {
                 verif_dir: verif_dir.to_string(),
                 write_evidence: false,
                 log_hashes: true,
+                no_shrink: true,
             };
             match run_workers(&a, runs, Duration::from_secs(120)) {
                 Ok(agg) => maps.push(agg.log_hashes),
